@@ -93,7 +93,7 @@ def run_c12(sc, q, rnd):
                 # ranges that run past the device's memory or past word 0xFFFF are included: they may be cut short or
                 # refused, never answered with other bytes
                 reads = [dict(word=w, len=ln, via="raw") for ln in list(range(0, 19)) + [63, 64, 65, 127]]
-                reads += [dict(word=w, len=0, via=v) for v in ("typed_u8", "typed_u16", "typed_u32", "typed_u64")]
+                reads += [dict(word=w, len=0, via=v) for v in ("typed_u8", "typed_u16", "typed_u32", "typed_u64", "typed_a16x3", "typed_a32x2", "typed_a8x6")]
                 cases.append(dict(id=f"g{n}", op="ranges", desc=desc, sii8=sii8, reads=reads))
                 n += 1
     trace = sc.run_cases("ranges", cases, binary="vsim2")
